@@ -4,8 +4,10 @@ corr   : generated small programs (elementwise chains, reductions, multi-output 
          chunks per task, 0-d results, structured-dtype intermediates, several computed arrays; fused and unfused).
          For EVERY crash point j (a store that lets j writes — metadata documents and chunks — through and then fails)
          the real crashed store and the real `compute(resume=True)` are compared with the Lean model (drivers/C09.lean):
-         the write sequence of the clean run, the store at the crash, refuse/complete, the operations executed on
-         resume, the writes of the resumed run, the chunks kept by the create step.
+         the write sequence of the clean run, the store at the crash (must be a prefix state of that sequence),
+         refuse/complete, the operations executed on resume and the nodes marked `computed`, the writes of the resumed
+         run, the chunks kept by the create step, the arrays that are complete.  zarr issues the stored-chunk writes
+         of one task concurrently, so sequences are compared per task as sets (the model returns the groups).
 oracle : the same experiments judged without the model: resumed result == uninterrupted result == NumPy; final store
          bytes == clean store bytes; an op is skipped only if every chunk of every output was present; ops that had
          finished before the crash are not re-run (except create-arrays and 0-d outputs); nothing is deleted, chunks
